@@ -28,15 +28,18 @@ struct Case {
     double lmin_f = 0.5, cut_rep_f = 0.3, cut_adh_f = 0.3;  // in units of the typical edge length
     int normals_state = 1;                                    // 0 = iteration-0 state (normals zero), 1 = computed
     double max_curv = 1e300;
+    double far[3] = {0, 0, 0};  // extra translation of the whole tissue in units of the typical edge ("wherever the tissue is placed")
     void write(vf::Writer& w) const {
         tissue.write(w);
         w.d(lmin_f), w.d(cut_rep_f), w.d(cut_adh_f), w.i(normals_state), w.d(max_curv);
+        w.d(far[0]), w.d(far[1]), w.d(far[2]);
         w.nl();
     }
     static Case read(vf::Reader& r) {
         Case c;
         c.tissue = tg::Tissue::read(r);
         c.lmin_f = r.d(), c.cut_rep_f = r.d(), c.cut_adh_f = r.d(), c.normals_state = (int)r.i(), c.max_curv = r.d();
+        if (r.more()) c.far[0] = r.d(), c.far[1] = r.d(), c.far[2] = r.d();
         return c;
     }
 };
@@ -51,6 +54,10 @@ static rc::Gen<Case> genCase() {
         c.cut_adh_f = *loguniform(0.05, 3.0);
         c.normals_state = *irange(0, 2) != 0;
         c.max_curv = *rc::gen::element(1e300, 1e300, 2.0, 0.8);
+        // contact detection involves no quantity that is ill-conditioned far from the origin (unlike the enclosed volume), so the
+        // placements go much further out than elsewhere: up to 1e7 edge lengths, where a double still resolves 1e-9 edge
+        const double mag = *rc::gen::element(0., 0., 1e4, 1e5, 1e6, 1e7);
+        for (double& v : c.far) v = mag == 0 ? 0. : (*uniform(-1, 1)) * mag;
         return c;
     });
 }
@@ -182,8 +189,11 @@ static std::string run(const Case& k, vf::Ctx& ctx) {
     omp_set_num_threads(1);  // couplings are order dependent by design; threads are C15's subject
     ct::CellScope scope;
     tg::Built b;
+    tg::Tissue placed = k.tissue;
+    for (auto& cd : placed.cells)
+        for (size_t i = 0; i < cd.mesh.xyz.size(); i++) cd.mesh.xyz[i] += k.far[i % 3] * k.tissue.edge;
     try {
-        b = tg::build(k.tissue, 10., 1., &scope);
+        b = tg::build(placed, 10., 1., &scope);
     } catch (const std::exception& e) {
         return std::string("tissue generator produced a cell the code rejects: ") + e.what();
     }
@@ -244,6 +254,10 @@ static std::string run(const Case& k, vf::Ctx& ctx) {
     if (fs > 0) ctx.count("tissue_with_contact_force");
     if (nvox >= 27) ctx.count("tissue_spanning_27_voxels");
     ctx.count(k.normals_state ? "normals_computed" : "normals_iteration0");
+    {
+        const double fm = std::max({std::fabs(k.far[0]), std::fabs(k.far[1]), std::fabs(k.far[2])});
+        if (fm > 0 && within) ctx.count("pair_in_range_with_tissue_1e" + std::to_string((int)std::floor(std::log10(fm * k.tissue.edge / cutoff))) + "_cutoffs_from_origin");
+    }
     if (within && nvox >= 27 && (fs > 0 || cross_voxel)) {
         ctx.nontriv();
         std::ostringstream s2;
